@@ -657,6 +657,8 @@ def run_check(prop_id, tier='quick', seed=0, budget_s=None, procs=None, replay_s
                 key = json.dumps(t['job'], sort_keys=True)
                 js = job_state[key]
                 js['open'] -= 1
+                js['paths'] = js.get('paths', 0) + r['stats']['paths']
+                js['cpu'] = js.get('cpu', 0.0) + r['wall']
                 total.add(r['stats'])
                 skipped += r['skipped']
                 trivial += r.get('trivial', 0)
@@ -814,6 +816,8 @@ def run_check(prop_id, tier='quick', seed=0, budget_s=None, procs=None, replay_s
         'axioms': sorted(axioms),
         'outside_claim': meta.get('outside', []),
         'errors': errors[:5],
+        'per_job': {json.loads(k)['name']: {'paths': v.get('paths', 0), 'cpu_s': round(v.get('cpu', 0.0), 1), 'complete': not v['partial'] and v['open'] == 0}
+                    for k, v in job_state.items()},
         'known_findings_hit': [f['id'] for f, _ in known],
         'rule': 'one state = one feasible path of the real code under the symbolic shims, explored to its end with every assertion decided by z3; '
                 'transitions = solver queries (branch feasibility + proof obligations)',
